@@ -87,12 +87,9 @@ func (c *Ctx) IRoles(ob *core.Obligation) *IRoles {
 		if len(clauseEntries(fn, stm)) < 2 {
 			continue
 		}
-		callsPrefetch := false
-		for _, ci := range core.Calls(fn) {
-			if r.Prefetch != nil && ci.Common().StaticCallee() == r.Prefetch {
-				callsPrefetch = true
-			}
-		}
+		// the balance-collecting switch reaches the prefetch traversal, directly or through
+		// per-statement helpers; the running one never does
+		callsPrefetch := r.Prefetch != nil && reachesWithin(fn, r.Prefetch, 3)
 		// the statement switch that is not the balance-collecting one runs the statements
 		if !callsPrefetch {
 			set(&r.Dispatcher, fn, "statement dispatcher")
